@@ -12,9 +12,9 @@ ID = "C09"
 LEVEL = "exploration"
 RULE = (
     "Hypothesis draws acyclic sets of 3-8 decay tables (0-4 lines, 0-4 daughters, repeated daughters, empty blocks, PHOTOS "
-    "lines, aliases, particles without tables); for every mother M and 3 drawn stable sets S (arbitrary subsets of all names "
+    "lines, aliases, particles without tables, half of the sets with 1-2 CopyDecay'd tables used as daughters); for every mother M and 3 drawn stable sets S (arbitrary subsets of all names "
     "involved, incl. M, M's daughters and table-less names; passed as list, tuple, set or frozenset, by keyword or by position) build_decay_chains(M, S) is compared "
-    "with the recursive definition computed from the AST; table-less names must raise DecayNotFound. Shipped master files: "
+    "with the recursive definition computed from the AST; table-less names must raise DecayNotFound (also when the text has no decay table at all). Shipped master files: "
     "mothers whose unfolding (independently counted) stays below 20000 nodes, tables taken from list_decay_modes (validated by "
     "C01), recursion/S-cut recomputed independently. Non-trivial: depth >=2 and (a repeated decaying daughter or a non-empty S "
     "cutting a particle that has a table below the first level)."
@@ -44,7 +44,9 @@ def depth(tables, m, stable):
 
 @st.composite
 def c09_case(draw):
-    f = draw(G.table_set_file())
+    from .C10 import c10_file
+
+    f = draw(c10_file())  # table sets, half of them with CopyDecay'd tables used as daughters
     names = sorted({s["m"] for s in f["stmts"] if s["k"] == "decay"} | {d for s in f["stmts"] if s["k"] == "decay" for ln in s["lines"] for d in ln["d"]})
     sets = []
     for _ in range(3):
@@ -59,7 +61,9 @@ def check_case(f, rec):
     from decaylanguage.dec.dec import DecayNotFound
 
     text = G.render(f)
-    tables = R.decay_tables(f)
+    tables = {}
+    for m_, _o, ls_ in R.all_tables(f, include_cc=False):  # Decay blocks and CopyDecay'd tables
+        tables.setdefault(m_, ls_)
     p = make_parser(text, ID)
     nt = False
     classes = set()
@@ -98,6 +102,8 @@ def check_case(f, rec):
                 classes.add("daughter-with-empty-block")
             if m in S:
                 classes.add("S-contains-M")
+            if any(d in R.copies(f) and d not in S for ln in tables[m] for d in ln["fs"]):
+                classes.add("copied-table-as-daughter")
             if any(ln["photos"] for ln in tables[m]):
                 classes.add("photos-line")
             classes.add("S-as-" + sdef["as"] + ("-positional" if sdef.get("positional") else ""))
